@@ -341,6 +341,15 @@ func luaBody2(d *def) string {
 	return luaBody(d)
 }
 
+// blockFile puts a regular file at <dir>/<name> (no extension).
+func (h *harness) blockFile(name string) {
+	path := filepath.Join(h.dir, name)
+	if err := os.WriteFile(path, []byte("return nil\n"), 0o644); err != nil {
+		panic("c20: cannot write " + path + ": " + err.Error())
+	}
+	h.wrote = append(h.wrote, path)
+}
+
 func (h *harness) deleteFiles(name string) {
 	for _, p := range h.candidates(name) {
 		os.Remove(p)
